@@ -4,6 +4,8 @@
 (*    ev: sequence of events]                                                                                  *)
 (* Events (op):                                                                                                 *)
 (*   "Design"    g    = the graph observed after designed_network()           -> the C08 clauses of DesignGraph  *)
+(*               inp  (optional) = the topology this design was given when it is not the trace's: the same network   *)
+(*                      object, extended in memory after an earlier design, is designed again                      *)
 (*   "Export"    x    = projected network_to_json of a designed network; every Export after the first one is    *)
 (*                      the export of  design(load(previous export))          -> Fixpoint* clauses               *)
 (*   "Twin"      x    = export of a second, independent design of the same input as the last Export (in the same   *)
@@ -69,7 +71,8 @@ Next ==
     /\ i' = i + 1 /\ tid' = tid
     /\ LET e == T[tid].ev[i + 1]
        IN CASE e.op = "Design" ->
-                 /\ viol' = viol \cup {<<i + 1, c>> : c \in DesignClauses(NormG(T[tid].inp), NormG(e.g), NormS(T[tid].s))}
+                 /\ LET given == IF "inp" \in DOMAIN e THEN e.inp ELSE T[tid].inp
+                    IN viol' = viol \cup {<<i + 1, c>> : c \in DesignClauses(NormG(given), NormG(e.g), NormS(T[tid].s))}
                  /\ UNCHANGED <<lastX, lastR, diff>>
             [] e.op = "Export" ->
                  /\ lastX' = i + 1
